@@ -14,8 +14,16 @@ def c01(tier, seed):
     return runs
 
 
+def c02(tier, seed):
+    cfgs = ["d", "c", "rf"] if tier == "quick" else ["d", "c", "p", "r", "rf", "crf", "nd"]
+    runs = [run(c, "rel", "c02") for c in cfgs]
+    runs += [run("d", "dbg", "c02", ["f32stride=4001", "nrand=200000", "perbinade=4"], tag="small")]
+    return runs
+
+
 PLANS = {
     "C01": c01,
+    "C02": c02,
 }
 
 META = {
@@ -32,6 +40,20 @@ META = {
             "a clean Miri/guard-page run means no UB observed on these executions only",
         ],
     },
+    "C02": {
+        "rule": "floats = f32 bit patterns on a seeded stride (quick: every 61st; thorough: all 2^32, exhaustive), every f64/f32 binade x "
+        "{0, all-ones, 1, single bits, low patterns, random} mantissas with both signs, the neighbours of every short decimal halfway point "
+        "(interval-endpoint class), integers < 200000, powers of ten +-3 ulp, integer-valued doubles in [2^53,2^77), few-bit mantissas, "
+        "d*10^q, uniform random bits. Judged: round trip (core parse as filter; exact oracle on every 16th/64th case and on every "
+        "disagreement), sign of zero, shortest+closest (core {:e} as a witness generator whose witness is verified exactly; plus a "
+        "core-independent exact check that no (n-1)-digit decimal round-trips and the output is the nearer n-digit decimal, on the sample), "
+        "compact: <= 17/9 digits. distinct_nontrivial = number of floats that went through the exact-arithmetic round-trip check.",
+        "assumptions": [
+            "core::fmt {:e} and core parse are used only as filters/witness generators; every violation is confirmed by exact arithmetic",
+            "an exact tie between two equally short, equally close outputs is accepted either way",
+            "f64 is sampled (2^64 cannot be enumerated)",
+        ],
+    },
 }
 
 
@@ -39,5 +61,9 @@ def replay_input(body):
     return ["replay=" + body["case"]["input"]]
 
 
-REPLAY = {"C01": replay_input}
+def replay_bits(body):
+    return ["replay=" + body["case"]["bits"], "type=" + body["case"]["type"]]
+
+
+REPLAY = {"C01": replay_input, "C02": replay_bits}
 POST = {}
